@@ -34,7 +34,8 @@ LEVEL_TEXT = ("Machine-checked: (1) compile_encodes_partial: for every well-form
               "shortcut equal XPath 2.4 filtering; recycle_contract: every memoised conversion of a recyclable XObject is reset "
               "unconditionally on the factory's recycle path; nodeset_builders_ordered: id() and every other node-set building "
               "function fill their result with ordered, duplicate-rejecting inserts; parent_walks_use_xpath_parent: no upward walk "
-              "of the function library uses the DOM parent accessor (tables regenerated from the source). The models are tied to the working tree by two translators and by replaying "
+              "of the function library uses the DOM parent accessor; scratch_buffers_cleared: loops reading one node's string-value "
+              "per iteration empty their buffer on every iteration (tables regenerated from the source). The models are tied to the working tree by two translators and by replaying "
               "generated expressions, token soups, comparisons and evaluations on generated documents on the real library and on "
               "the compiled model; every implementation reply is also compared with the denotational specification evalS.")
 LEVEL_NOTE = ("Trusted: Lean kernel; axioms propext/Classical.choice/Quot.sound only; the hand transcription of the anchored C++ "
@@ -72,6 +73,7 @@ THEOREMS = [
     "XalanModel.Props.C02.recycle_contract",
     "XalanModel.Props.C02.nodeset_builders_ordered",
     "XalanModel.Props.C02.parent_walks_use_xpath_parent",
+    "XalanModel.Props.C02.scratch_buffers_cleared",
 ]
 
 CORPUS_EXPR = [
@@ -131,6 +133,7 @@ def run(ctx):
     ctx.translate("c02_recycle")
     ctx.translate("c02_nodeset_builders")
     ctx.translate("c02_parent_walks")
+    ctx.translate("c02_scratch_buffers")
     ctx.lean("XalanModel.Props.C02", THEOREMS, extra_targets=["xm_c02"])
     model = ctx.exe("xm_c02")
     harness = common.build_harness("c02_xpath", ["c02_xpath.cpp"], flavor="hooks")
@@ -142,6 +145,7 @@ def run(ctx):
     compile_stream(ctx, r, harness, model, work)
     compare_stream(ctx, r, harness, model, work)
     eval_stream(ctx, r, harness, model, work)
+    sequence_stream(ctx, r, harness, model, work)
 
 
 def impl_compile(harness, work, toks):
@@ -625,6 +629,57 @@ def eval_stream(ctx, r, harness, model, work):
                "generated expression/document/context", "correspondence", not disagree, json.dumps(disagree[:3]))
     if disagree:
         ctx.extra["eval_disagreements"] = disagree[:20]
+
+
+def sequence_stream(ctx, r, harness, model, work):
+    """extension node-set functions on documents whose sibling values enumerate all words of length <= 5 over a small alphabet
+    (every duplicate / adjacency pattern), compared node for node with the model and with the specification functions"""
+    two = g.all_words(["a", "b"], 5)                       # 62 words: always all of them
+    three = g.all_words(["a", "b", "c"], 5)                # 363
+    nums = g.all_words(["1", "2", "10"], 4)                # numeric values for math:highest / lowest
+    mixed = g.all_words(["x", "", "x y"], 4)               # empty and white-space containing values
+    words = list(two)
+    if ctx.thorough:
+        words += three + nums + mixed
+    else:
+        words += r.shuffle(three)[:60] + r.shuffle(nums)[:30] + r.shuffle(mixed)[:20]
+    per_doc = 5
+    lines, meta = [], []
+    for k in range(0, len(words), per_doc):
+        ws = words[k:k + per_doc]
+        xml, table = g.words_doc(ws)
+        lines.append("doc %s %s" % (hx(xml), g.table_text(table)))
+        meta.append(None)
+        for e in g.g_sequence_requests(r, len(ws)):
+            lines.append("eval 0 %s" % hx(e))
+            meta.append((e, xml, ws))
+    il, ml, irc, mrc, ierr, merr, req = run_requests(harness, model, lines, work, "sequences")
+    disagree = []
+    for i, m in enumerate(meta):
+        iv = il[i] if i < len(il) else None
+        mraw = ml[i] if i < len(ml) else None
+        if iv is None or mraw is None:
+            ctx.oblige("harness and model answered every value-sequence request", "correspondence", False,
+                       "stopped at line %d: %s %s" % (i, ierr[-500:], merr[-300:]))
+            break
+        if m is None:
+            if iv != mraw:
+                disagree.append({"line": "doc", "impl": iv, "model": mraw})
+            continue
+        e, xml, ws = m
+        mv, _, sv = mraw.partition(" || ")
+        ctx.case(nontrivial_key=(e, xml), sample={"words": ws, "expr": e, "impl": iv} if i % 977 == 3 else None, cls="seq:" + iv.split(" ")[0])
+        if "!order" in iv:
+            ctx.fail("seq.order: %s on %r" % (e, ws), "node-set not delivered in document order without duplicates: %s" % iv,
+                     {"lines": [lines[max(j for j in range(i + 1) if meta[j] is None)], lines[i]], "words": ws, "expr": e})
+        iv_c = iv.replace(" !order", "")
+        if iv_c != sv:
+            ctx.fail("seq.wrong: %s on values %r" % (e, ws), "value %s, the definition of the function gives %s" % (iv, sv),
+                     {"lines": [lines[max(j for j in range(i + 1) if meta[j] is None)], lines[i]], "words": ws, "expr": e})
+        if iv_c != mv:
+            disagree.append({"words": ws, "expr": e, "impl": iv, "model": mv, "spec": sv})
+    ctx.oblige("correspondence: extension node-set functions (xalan:distinct/difference/intersection, set:*, math:highest/lowest) = "
+               "Lean specification functions on every value-sequence document", "correspondence", not disagree, json.dumps(disagree[:3]))
 
 
 def shrink_eval(harness, model, work, xml, table, term, c, cls, budget=60):
